@@ -5,6 +5,7 @@ import (
 	"fmt"
 	"strings"
 	"testing"
+	"time"
 
 	"github.com/istio-ecosystem/authservice/verif/sim"
 )
@@ -117,6 +118,10 @@ func c05Prop(c *sim.Case) {
 	ho.o.CookiePrefix = pfx(c, "prefix")
 	ho.o.Logout = sim.Weighted(c, "logout2", 1, 4) == 1
 	ops := genOps(c, c05Profile, 30)
+	if sim.Weighted(c, "idle-timeout", 2, 1) == 1 {
+		// sessions that are kept alive over several idle periods (advances by fractions of the limit)
+		ho.o.Idle = []time.Duration{30 * time.Second, 5 * time.Minute, 30 * time.Minute}[sim.Pick(c, "idle", 3)]
+	}
 	c.Logf("world: %v prefix=%q", ho, ho.o.CookiePrefix)
 	logOps(c, ops)
 	h := ho.build(c, &c05Mon{everIssued: map[string]int{}})
